@@ -92,6 +92,10 @@ pub struct EnginePlan {
     /// C11 twin mode: run the colour-flipped session on a second engine and compare
     #[serde(default)]
     pub twin: bool,
+    /// C11: additionally play every position and its colour-flipped twin one after the other on ONE
+    /// engine instance (whatever the instance latches at its first search must not break the symmetry)
+    #[serde(default)]
+    pub twin_inline: bool,
 }
 
 impl GoSpec {
@@ -1492,7 +1496,7 @@ pub fn gen_plan_marathon(focus: &str, seed: u64, pool: &[Pos]) -> EnginePlan {
         }
         cycles.push(quiet(PosSpec::Set { fen: game.fen.clone(), moves: game.moves.clone() }, g, i == 0));
     }
-    EnginePlan { focus: focus.to_string(), knobs, cycles, enumerate_interrupts: false, twin: false }
+    EnginePlan { focus: focus.to_string(), knobs, cycles, enumerate_interrupts: false, twin: false, twin_inline: false }
 }
 
 /// Generic session plan (C07 / C16 / C15 engine level).
@@ -1663,7 +1667,7 @@ pub fn gen_plan(focus: &str, seed: u64, thorough: bool, pool: &[Pos]) -> EngineP
             last.post_lines.clear();
         }
     }
-    EnginePlan { focus: focus.to_string(), knobs, cycles, enumerate_interrupts: false, twin: false }
+    EnginePlan { focus: focus.to_string(), knobs, cycles, enumerate_interrupts: false, twin: false, twin_inline: false }
 }
 
 /// C08: fixed-depth exactness cycles on one engine instance, varied knobs.
@@ -1693,7 +1697,7 @@ pub fn gen_plan_exact(seed: u64, thorough: bool, pool: &[Pos], mates: &[(Pos, u3
             cycles.push(Cycle { newgame: k == 0 || rng.chance(1, 6), pos: PosSpec::Set { fen: Some(p.to_fen()), moves: vec![] }, pre_lines: vec![], go: g, ns_per_node: 1000, gap_ns: 1_000_000, jumps: vec![], stop_before_dequeue: false, events: vec![], post_lines: vec![] });
         }
         if cycles.len() >= 2 {
-            return EnginePlan { focus: "C08".into(), knobs, cycles, enumerate_interrupts: false, twin: false };
+            return EnginePlan { focus: "C08".into(), knobs, cycles, enumerate_interrupts: false, twin: false, twin_inline: false };
         }
     }
     let n = 2 + rng.usize_below(if thorough { 8 } else { 4 });
@@ -1757,7 +1761,7 @@ pub fn gen_plan_exact(seed: u64, thorough: bool, pool: &[Pos], mates: &[(Pos, u3
         }
         cycles.push(Cycle { newgame: ci == 0 || rng.chance(1, 4), pos: PosSpec::Set { fen: game.fen.clone(), moves: game.moves.clone() }, pre_lines: vec![], go: g, ns_per_node: *rng.pick(&[1u64, 1000, 1_000_000]), gap_ns: 1_000_000, jumps: vec![], stop_before_dequeue: false, events: vec![], post_lines: vec![] });
     }
-    EnginePlan { focus: "C08".into(), knobs, cycles, enumerate_interrupts: false, twin: false }
+    EnginePlan { focus: "C08".into(), knobs, cycles, enumerate_interrupts: false, twin: false, twin_inline: false }
 }
 
 /// C08 sessions with a disturbed history: "irrespective of what was searched before on the same
@@ -1851,6 +1855,7 @@ pub fn gen_plan_twin(seed: u64, thorough: bool, pool: &[Pos], mates: &[(Pos, u32
     }
     p.focus = "C11".into();
     p.twin = true;
+    p.twin_inline = rng.chance(1, 2);
     p
 }
 
@@ -1929,7 +1934,7 @@ pub fn gen_plan_draw(seed: u64, thorough: bool, imbalanced: &[Pos]) -> EnginePla
             cycles.push(broken);
         }
     }
-    EnginePlan { focus: "C10".into(), knobs, cycles, enumerate_interrupts: false, twin: false }
+    EnginePlan { focus: "C10".into(), knobs, cycles, enumerate_interrupts: false, twin: false, twin_inline: false }
 }
 
 /// C09: one plan = position + go; every poll of a dry run is an interruption point.
@@ -1962,7 +1967,7 @@ pub fn gen_plan_interrupt(seed: u64, thorough: bool, pool: &[Pos], imbalanced: &
     let mut g = GoSpec::depth(depth);
     g.layout = rng.next_u64();
     let c = Cycle { newgame: true, pos: PosSpec::Set { fen: game.fen.clone(), moves: game.moves.clone() }, pre_lines: vec![], go: g, ns_per_node: 1000, gap_ns: 0, jumps: vec![], stop_before_dequeue: false, events: vec![], post_lines: vec![] };
-    EnginePlan { focus: "C09".into(), knobs, cycles: vec![c], enumerate_interrupts: true, twin: false }
+    EnginePlan { focus: "C09".into(), knobs, cycles: vec![c], enumerate_interrupts: true, twin: false, twin_inline: false }
 }
 
 // ------------------------------------------------------------------ execution
@@ -2000,7 +2005,54 @@ fn run_twin(plan: &EnginePlan, res: &mut RunResult) -> Result<(u64, u64, u64), V
     if sums[0].len() != sums[1].len() {
         return Err(viol("C11", "twin_sessions_differ_in_length", format!("{} vs {} searches", sums[0].len(), sums[1].len())));
     }
-    for (a, b) in sums[0].iter().zip(sums[1].iter()) {
+    let mut pairs: Vec<((String, String, String, u64), (String, String, String, u64))> = sums[0].iter().cloned().zip(sums[1].iter().cloned()).collect();
+    if plan.twin_inline {
+        // third session: position, twin, next position, its twin, ... on ONE engine instance
+        let f = flip_plan(plan);
+        let mut last: Option<(PosSpec, PosSpec)> = None;
+        let mut cycles = Vec::new();
+        for (a, b) in plan.cycles.iter().zip(f.cycles.iter()) {
+            let (mut a, mut b) = (a.clone(), b.clone());
+            match &a.pos {
+                PosSpec::Set { .. } => last = Some((a.pos.clone(), b.pos.clone())),
+                PosSpec::Keep => match &last {
+                    Some((x, y)) => {
+                        a.pos = x.clone();
+                        b.pos = y.clone();
+                    }
+                    None => continue,
+                },
+                _ => continue,
+            }
+            // sometimes the twin goes first
+            b.newgame = false;
+            if cycles.len() % 4 == 2 {
+                b.newgame = a.newgame;
+                a.newgame = false;
+                cycles.push(b);
+                cycles.push(a);
+            } else {
+                cycles.push(a);
+                cycles.push(b);
+            }
+        }
+        let ip = EnginePlan { cycles, ..plan.clone() };
+        let mut gui = Gui::start(&ip.knobs, &ip.focus, res)?;
+        for c in &ip.cycles {
+            gui.cycle(c)?;
+        }
+        gui.finish()?;
+        out = (out.0 ^ gui.log.0, out.1 ^ gui.shape.0, out.2 + gui.sess.sched.lock().last_now_ns.saturating_sub(1_000_000_000_000));
+        let s = std::mem::take(&mut gui.summaries);
+        if s.len() != ip.cycles.len() {
+            return Err(viol("C11", "twin_sessions_differ_in_length", format!("same-instance session: {} searches answered of {}", s.len(), ip.cycles.len())));
+        }
+        for k in 0..s.len() / 2 {
+            res.bump("probe.twin_pair_on_one_instance");
+            pairs.push((s[2 * k].clone(), s[2 * k + 1].clone()));
+        }
+    }
+    for (a, b) in pairs.iter() {
         res.bump("twin_comparisons");
         // the full-move number legitimately differs by one along mirrored games (it advances after Black's move)
         let flipped_ok = match (Pos::from_fen(&a.0), Pos::from_fen(&b.0)) {
